@@ -1,21 +1,30 @@
 """C12 — segment length, surface area and volume are those of the frustum or sphere.
 
-Tie (two parts):
+Tie (three parts):
   1. TRANSLATOR: `regenerate` runs translators/py2lean_geom.py on fw.REPO's current working tree; it re-emits
      lean/NmlVerif/Gen/Geom.lean from the bodies of Segment.length/volume/surface_area, Point3DWithDiam.distance_to,
      Cell.get_actual_proximal/get_segment_length/_surface_area/_volume in BOTH helper_methods.py and nml.py. The
-     theorems of Props/C12.lean are about those generated definitions (at α = ℝ), so an edited formula changes the
-     term under the proofs.
+     theorems of Props/C12*.lean (one module per translated function) are about those generated definitions, at α = ℝ
+     and in the standard floating-point model, and include `generated = hand-written model` (Model/GeomHand.lean).
   2. NUMERIC CORRESPONDENCE of the same generated definitions at α = Float (Drivers/C12.lean) with the real library:
-     (a) "exact" stream — inputs on which every `**` of the Python code has an exactly representable result
-         (Pythagorean-quadruple / axis-aligned geometries on a dyadic grid, dyadic diameters; verified per case with
-         Fractions): results must be equal BIT FOR BIT;
+     (a) inputs on which every `**` of the Python code has an exactly representable result (Pythagorean-quadruple /
+         axis-aligned geometries on a dyadic grid, dyadic diameters; verified per case with Fractions): BIT FOR BIT;
      (b) other inputs: within 1e-14 relative (pow(x,3) and x*x*x may differ by an ulp); inherited proximal points
          (no `**` involved) bit for bit always.
+  3. DIRECTED SEARCH (run first, every run, seed-independent): a systematic grid — segments along each axis (+/-), in
+     each coordinate plane, oblique, coincident; untapered / tapered / cone / zero diameters; children without proximal
+     point at every fraction in {0, 1/4, 1/2, 3/4, 1} (+ 0.1, 0.625, -0.5, 1.5) on tapered/untapered parents whose own
+     proximal point is given or inherited 1-2 levels up. On it the driver evaluates the GENERATED definitions and the
+     HAND-WRITTEN model side by side (a changed translation shows up as a concrete input on which they differ), and the
+     oracle evaluates the full property on the real code (which confirms, or not, that input). When an obligation is
+     broken (translator gap / changed output breaking a proof / correspondence) and the grid or corpus has produced a
+     failing input on the real code that is not a known finding, the run STOPS there (no 10x sweep); otherwise the
+     random streams run in rounds (at most fw's multiplier, at most ~70 s quick / 600 s thorough) until one is found.
 FAILING-INPUT SEARCH (not proof): the full property statement is evaluated on the real code against an independent
 60-digit `decimal` evaluation of the closed forms (1e-12 relative) and through the metamorphic relations (swap,
 exact translation, exact scaling k / k^2 / k^3), over magnitudes 1e-90..1e90, degenerate and nearly coincident cases,
-and cells whose segments inherit their proximal point (fraction_along in {0, .25, .5, 1} and arbitrary).
+cells whose segments inherit their proximal point (fractions in {0,.25,.5,.75,1}, arbitrary, and outside [0,1]), parent
+chains up to 60 levels deep, negative diameters (schema-invalid, accepted by the classes).
 """
 import json
 import math
@@ -27,29 +36,37 @@ from fractions import Fraction
 
 import fw
 
-LEAN_PROPS = ["NmlVerif.Props.C12"]
+# one module per translated function: a changed function breaks only the obligations that depend on it
+LEAN_PROPS = ["NmlVerif.Props.C12", "NmlVerif.Props.C12Volume", "NmlVerif.Props.C12Area", "NmlVerif.Props.C12Cell",
+              "NmlVerif.Props.C12Getters"]
 LEAN_THOROUGH = ["NmlVerif.Props.C12Integral"]
 LEVEL = "proof"
-RULE = ("streams: exact (Pythagorean-quadruple/axis-aligned segments on a dyadic grid x 2^e, dyadic diameters), general "
-        "(random 53-bit coordinates/diameters, magnitudes 1e-90..1e90, end-point separation from 1 ulp to the full "
-        "magnitude), degenerate (zero length with equal/unequal diameters, zero diameters, missing proximal), extreme "
-        "(1e150..1e300 and below 1e-150: overflow/underflow findings), cells (1-6 segments, chains of inherited proximal "
-        "points, fraction_along in {0,.25,.5,1} or random, duplicate/missing ids, parent cycles); each segment case is "
-        "also swapped, translated (exactly, grid cases) and scaled (2^j always; 3,5,7,10 on grid cases). A case is "
-        "non-trivial when both end points exist and it is not an axis-aligned cylinder (oblique axis, or unequal radii, "
-        "or coincident centres), or when it is a cell query whose proximal point is inherited; distinct = distinct "
-        "canonical (hex-float) inputs")
+RULE = ("streams: corpus; directed-grid (systematic, seed-independent: axis-aligned +/- along each axis, planar, oblique, "
+        "coincident x 7 diameter patterns x 2 base points; cells: fraction in {0,.25,.5,.75,1,(.1,.625,-.5,1.5)} x tapered/"
+        "untapered parent along x/y/z/oblique x parent's proximal own/inherited 1/inherited 2 levels x 5 child offsets); exact "
+        "(Pythagorean-quadruple/axis-aligned segments on a dyadic grid x 2^e, dyadic diameters), general (random 53-bit "
+        "coordinates/diameters, magnitudes 1e-90..1e90, end-point separation from 1 ulp to the full magnitude), degenerate "
+        "(zero length with equal/unequal diameters, zero diameters, missing proximal), grid (30-bit mantissas: exact "
+        "translations / scalings), extreme (1e150..1e300 and below 1e-150: overflow/underflow findings), cells (1-6 segments, "
+        "chains of inherited proximal points, fraction_along in {0,.25,.5,.75,1}, random, or outside [0,1]; duplicate/missing "
+        "ids, parent cycles), chain (8-60 segments each hanging on the previous one, shuffled document order), signed "
+        "(negative diameters); each segment case is also swapped, translated (exactly, grid cases) and scaled (2^j always; "
+        "3,5,7,10 on grid cases). A case is non-trivial when both end points exist and it is not an axis-aligned cylinder "
+        "(oblique axis, or unequal radii, or coincident centres), or when it is a cell query whose proximal point is "
+        "inherited; distinct = distinct canonical (hex-float) inputs")
 TRUST = [
     "translators/py2lean_geom.py (AST shape -> Lean term; validated on every run by the Float correspondence, not verified)",
     "Lean `Float` operations and CPython float operations are both IEEE-754 binary64 round-to-nearest (driver side compiled/interpreted by Lean)",
-    "hand-written Model/Geom.lean: Cell.get_segment (first match, ValueError) and the fuel recursion tying get_actual_proximal; tied by correspondence only",
-    "value shapes: Point3DWithDiam/Segment/SegmentParent members are Python floats; distal is always present; fraction_along already parsed",
+    "hand-written Model/Geom.lean: Cell.get_segment (first match, ValueError; characterised by get_segment_first_match / get_segment_missing) and the fuel recursion tying get_actual_proximal (fuel bound proved: actual_proximal_fuel_bound); tied to the code by correspondence (duplicate ids, unknown ids, cycles, chains 60 deep)",
+    "value shapes: Point3DWithDiam/SegmentParent members are Python floats (the constructors cast ints / numeric strings with _cast(float, ..) — checked every run; a member ASSIGNED afterwards as int/str is not modelled); distal is always present (a missing distal raises AttributeError in the code, outside the property's quantifier)",
+    "rounding theorems (length_rounding, volume_*_rounding, surface_area_*_rounding): the STANDARD MODEL of floating-point arithmetic is a hypothesis (Rounding.FloatModel: each + - * / sqrt returns x(1+d), |d| <= u; pi rounded; halving exact; no overflow/underflow); that CPython floats satisfy it in range with u = 2^-53 and that x**2, x**3, x**0.5 are as accurate as x*x, (x*x)*x, sqrt(x) is trusted and sampled (bit-for-bit / 1e-14 correspondence, 1e-12 oracle)",
 ]
 ASSUMPTIONS = [
-    "the clause 'to floating-point rounding' is NOT proved (no IEEE error analysis): theorems are over the reals; rounding is sampled (1e-12 relative vs 60-digit decimal) for magnitudes 1e-90..1e90",
+    "the clause 'to floating-point rounding' is proved for the SEGMENT-level formulas in the standard model of rounding (4 / 11 / 10 / 6 / 4 roundings for length / frustum volume / frustum area / sphere volume / sphere area, non-negative diameters) — not for IEEE arithmetic itself, and not for the interpolation of an inherited proximal point (backward-stable, subject to cancellation: sampled norm-wise, 1e-12 of the coordinate scale)",
     "overflow (coordinate differences beyond ~1e154 raise OverflowError) and underflow (differences below ~1e-162 give length 0) are outside the proved claim; they are reported as known findings C12:range:*",
     "surface_area is the LATERAL area of the frustum (no end discs), as the code computes it",
-    "parent chains are shorter than the interpreter's recursion limit (model: fuel)",
+    "parent chains are shorter than the interpreter's recursion limit (model: fuel; fuel = number of segments suffices, proved)",
+    "negative diameters and fraction_along outside [0,1] are schema-invalid but accepted by the classes: modelled, generated and compared; non-negativity is claimed exactly under the hypotheses of volume_nonneg / surface_area_nonneg",
 ]
 
 getcontext().prec = 60
@@ -187,6 +204,8 @@ def cell_line(segs, q):
 
 def same(real, model, exact):
     """compare one result; returns None when they agree, else a short reason"""
+    if "err" in model and model["err"][0] == "Untranslated":
+        return None          # the translator refused this function (reported as a gap): there is no model to compare with
     if "err" in real or "err" in model:
         if "err" in real and "err" in model:
             rk, rm = real["err"]
@@ -267,6 +286,18 @@ def range_class(p, d):
     return "in"
 
 
+def nonneg_claimed(k, p, d, branch):
+    """inputs for which the property's 'non-negative' is claimed (= hypotheses of length_nonneg / volume_nonneg /
+    surface_area_nonneg in Props/C12.lean): length always; volume unless it is the sphere of a NEGATIVE diameter
+    (r1^2+r1*r2+r2^2 >= 0 whatever the signs); area when it is a sphere or the diameters sum to >= 0.
+    Negative diameters are schema-invalid (DoubleGreaterThanZero) but accepted by the classes."""
+    if k == "length":
+        return True
+    if k == "volume":
+        return branch != "sphere" or p[3] >= 0
+    return branch == "sphere" or p[3] + d[3] >= 0
+
+
 def oracle_seg(ctx, p, d, real, case, prefix=""):
     """full property on one segment with both end points (real = results of the real code)"""
     spec = spec_seg(p, d)
@@ -289,7 +320,7 @@ def oracle_seg(ctx, p, d, real, case, prefix=""):
             else:
                 ctx.fail("C12:%s%s:value" % (prefix, k), "%s = %r, closed form (%s) = %s" % (k, v, spec["branch"], +spec[k]),
                          dict(case, got=float(v).hex() if isinstance(v, float) else repr(v), expected=str(spec[k])[:40]))
-        elif (p[3] >= 0 and d[3] >= 0 or k == "length") and not v >= 0:
+        elif nonneg_claimed(k, p, d, spec["branch"]) and not v >= 0:
             ctx.fail("C12:%s%s:negative" % (prefix, k), "%s is negative" % k, case)
     if rc == "in":
         for k in ("dist_pd", "dist_dp"):          # Point3DWithDiam.distance_to, both directions
@@ -422,11 +453,16 @@ def oracle_cell(ctx, segs, q, real, case):
     if range_class(got, d) != "in":
         return
     oracle_seg(ctx, got, d, real, case, prefix="cell:")
+    # cell_getters_any_number_type: in floating point the two levels are the SAME computation -> bit-for-bit equal
     direct = real_seg(got, d)
     for k, _ in QS:
-        if not rel_same(real[k], direct[k]):
+        a, b = real[k], direct[k]
+        same_bits = ("err" in a and "err" in b and a["err"][0] == b["err"][0]) or \
+                    ("ok" in a and "ok" in b and (f2b(a["ok"]) == f2b(b["ok"]) or a["ok"] == b["ok"]))
+        if not same_bits:
             ctx.fail("C12:cell:%s:differs-from-segment" % k,
-                     "cell-level getter differs from the segment-level property on (actual proximal, distal)", case)
+                     "cell-level getter differs (in bits) from the segment-level property on (actual proximal, distal)",
+                     dict(case, cell=canon_res(a), segment=canon_res(b)))
 
 
 # ------------------------------------------------------------------ generators
@@ -518,7 +554,28 @@ def gen_extreme(rng):
     return gen_general(rng, -300, -150)
 
 
+def gen_signed(rng):
+    """schema-invalid but accepted: negative diameters (moderate magnitudes)"""
+    c = gen_general(rng, -3, 3)
+    p, d = unhx(c["p"]), unhx(c["d"])
+    r = rng.random()
+    if r < 0.4:
+        p[3] = -p[3]
+    elif r < 0.8:
+        d[3] = -d[3]
+    else:
+        p[3], d[3] = -p[3], -d[3]
+    if rng.random() < 0.25:                      # coincident centres: sphere of a negative diameter / refusal
+        d[:3] = p[:3]
+        if rng.random() < 0.6:
+            d[3] = p[3]
+    if rng.random() < 0.15:                      # r1 + r2 = 0
+        d[3] = -p[3]
+    return {"kind": "seg", "p": hx(p), "d": hx(d), "ks": [pow2(rng)]}
+
+
 FRACTS = [0.0, 0.25, 0.5, 1.0]
+GRID_FRACTS = [0.0, 0.25, 0.5, 0.75, 1.0]
 
 
 def frac_prox(segs, sid, depth=0):
@@ -572,7 +629,7 @@ def gen_cell(rng, exact):
             continue
         pid = rng.choice(ids[:i]) if rng.random() < 0.95 else rng.choice(ids + [99])
         r = rng.random()
-        f = rng.choice(FRACTS) if (exact or r < 0.5) else rng.random()
+        f = rng.choice(GRID_FRACTS) if (exact or r < 0.5) else (rng.random() if r < 0.92 else rng.uniform(-1.0, 2.0))
         own = rng.random() < 0.35
         p = pt() if own else None
         seg = [sid, p, d, [pid, f]]
@@ -591,6 +648,89 @@ def gen_cell(rng, exact):
     q = rng.choice([s[0] for s in segs]) if rng.random() < 0.95 else 77
     return {"kind": "cell", "segs": [[s[0], hx(s[1]), hx(s[2]), None if s[3] is None else [s[3][0], float(s[3][1]).hex()]]
                                      for s in segs], "q": q}
+
+
+def _case_cell(segs, q):
+    return {"kind": "cell", "q": q,
+            "segs": [[s[0], hx(s[1]), hx(s[2]), None if s[3] is None else [s[3][0], float(s[3][1]).hex()]] for s in segs]}
+
+
+def gen_chain(rng):
+    """deep parent chains: 8..60 segments, each hanging on the previous one, most without a proximal point of their
+    own (so get_actual_proximal recurses to arbitrary depth), shuffled document order, non-contiguous ids, fractions
+    from {0,.25,.5,.75,1}, random in (0,1) and (schema-invalid) outside [0,1]"""
+    n = rng.randint(8, 60)
+    ids = rng.sample(range(0, 4 * n), n)
+    u = math.ldexp(1.0, rng.randint(-6, 6))
+    dy = rng.random() < 0.5
+
+    def pt():
+        if dy:
+            return [rng.randint(-2 ** 10, 2 ** 10) * u for _ in range(3)] + [rng.randint(1, 64) * u / 8]
+        m = 10 ** rng.uniform(-2, 2)
+        return [mant(rng) * m for _ in range(3)] + [abs(mant(rng)) * 10 ** rng.uniform(-1, 1)]
+    segs = []
+    for i, sid in enumerate(ids):
+        if i == 0:
+            segs.append([sid, pt(), pt(), None])
+            continue
+        r = rng.random()
+        f = rng.choice(GRID_FRACTS) if r < 0.5 else (rng.random() if r < 0.85 else rng.uniform(-1.0, 2.0))
+        if dy and r >= 0.5:
+            f = rng.randint(-8, 16) / 8.0
+        own = rng.random() < 0.12
+        segs.append([sid, pt() if own else None, pt(), [ids[i - 1], f]])
+    order = list(segs)
+    rng.shuffle(order)
+    q = ids[-1] if rng.random() < 0.6 else rng.choice(ids)
+    return _case_cell(order, q)
+
+
+def grid_cases():
+    """DIRECTED SEARCH: a small systematic, seed-independent grid. Segments: every axis direction (+/-), every
+    coordinate plane, oblique (Pythagorean and not), coincident; untapered / tapered both ways / cone / zero diameters;
+    with and without a proximal point; two base points. Cells: a child without proximal point hanging at each
+    fraction in {0, 1/4, 1/2, 3/4, 1} on a tapered or untapered parent lying along x, y, z or obliquely, the parent
+    having its own proximal point or inheriting it (1 and 2 levels up); child distal placed exactly on each axis, obliquely,
+    or at the inherited point itself. All values are small dyadic numbers, so the arithmetic of the code is (mostly)
+    exact and any disagreement is a wrong formula, not rounding."""
+    cases = []
+    dirs = [(7.5, 0, 0), (-7.5, 0, 0), (0, 7.5, 0), (0, -7.5, 0), (0, 0, 7.5), (0, 0, -7.5),
+            (3, 4, 0), (3, 0, -4), (0, -3, 4), (1, 2, 2), (-2, 3, 6), (1, 1, 1), (0.5, -0.25, 8), (0, 0, 0)]
+    diams = [(2.0, 2.0), (2.0, 1.0), (1.0, 2.0), (0.0, 2.0), (2.0, 0.0), (0.0, 0.0), (3.0, 3.0)]
+    for base in ((0.0, 0.0, 0.0), (3.0, -2.0, 5.0)):
+        for dv in dirs:
+            for (d1, d2) in diams:
+                p = list(base) + [d1]
+                d = [base[0] + dv[0], base[1] + dv[1], base[2] + dv[2], d2]
+                cases.append({"kind": "seg", "p": hx(p), "d": hx(d), "ks": [0.5, 3.0], "trans": hx([16.0, -8.0, 0.5])})
+        cases.append({"kind": "seg", "p": None, "d": hx(list(base) + [1.0])})
+    pdirs = [(8, 0, 0), (0, 8, 0), (0, 0, 8), (8, 4, -4)]
+    deltas = [(3, 0, 0), (0, 3, 0), (0, 0, 3), (2, 3, 6), (0, 0, 0)]
+    for taper in ((4.0, 1.0), (2.0, 2.0)):
+        for pv in pdirs:
+            for depth in (0, 1, 2):
+                for f in GRID_FRACTS + ([0.1, 0.625, -0.5, 1.5] if pv == pdirs[3] else []):   # + non-dyadic, 3-bit, schema-invalid
+                    for di, dl in enumerate(deltas):
+                        pp = [1.0, 2.0, -3.0, taper[0]]
+                        pd = [pp[0] + pv[0], pp[1] + pv[1], pp[2] + pv[2], taper[1]]
+                        if depth == 0:
+                            segs = [[5, pp, pd, None]]
+                        elif depth == 1:      # the parent inherits its proximal: the root's distal point (fraction 1)
+                            segs = [[9, [pp[0] - 4, pp[1], pp[2], 6.0], pp, None], [5, None, pd, [9, 1.0]]]
+                        else:                 # ... half-way along a tapered grandparent that itself inherits (fraction 0)
+                            g0 = [pp[0] - 2, pp[1] - 4, pp[2] + 6, 2 * taper[0] - 2.0]
+                            g1 = [pp[0] + 2, pp[1] + 4, pp[2] - 6, 2.0]          # midpoint = pp with diameter taper[0]
+                            segs = [[11, [g0[0] - 1, g0[1], g0[2], 5.0], [g0[0], g0[1], g0[2], 9.0], None],
+                                    [3, g0, [g0[0], g0[1] + 2, g0[2], 7.0], [11, 1.0]],
+                                    [9, None, g1, [3, 0.0]], [5, None, pd, [9, 0.5]]]
+                        child = [2, None, [0.0, 0.0, 0.0, 0.75], [5, f]]
+                        pr = frac_prox(segs + [child], 2)
+                        child[2] = [float(pr[i] + Fraction(dl[i])) for i in range(3)] + \
+                                   [float(pr[3]) if di % 2 == 0 else 0.75]
+                        order = [child] + segs if (di + depth) % 2 else segs + [child]
+                        cases.append(_case_cell(order, 2))
+    return cases
 
 
 H1 = (1.0).hex()
@@ -622,6 +762,15 @@ CORPUS = [
     _seg([0, 0, 0, 2.0], [1e-200, 0, 0, 2.0]),
     # missing proximal
     {"kind": "seg", "p": None, "d": hx([1, 2, 3, 1.0])},
+    # end points sharing x and y (segment parallel to z), equal / unequal diameters; sharing two other coordinates
+    _seg([3.0, -2.0, 5.0, 2.0], [3.0, -2.0, 12.5, 2.0]),
+    _seg([3.0, -2.0, 5.0, 2.0], [3.0, -2.0, 12.5, 1.0]),
+    _seg([3.0, -2.0, 5.0, 2.0], [3.0, 5.5, 5.0, 1.0]),
+    _seg([3.0, -2.0, 5.0, 2.0], [10.5, -2.0, 5.0, 1.0]),
+    # negative diameters (schema-invalid): sphere of diameter -2, cylinder with diameters -2, mixed signs
+    _seg([0, 0, 0, -2.0], [0, 0, 0, -2.0]),
+    _seg([0, 0, 0, -2.0], [0, 0, 3, -2.0]),
+    _seg([0, 0, 0, -2.0], [0, 4, 3, 6.0]),
     # exact grid case with translation and scaling
     _seg([3.0, 4.0, 0.0, 2.0], [6.0, 8.0, 12.0, 6.0], trans=hx([1024.0, -512.0, 0.5]), ks=[3.0, 10.0]),
     # the repo's test cell: seg1 / seg3 inherit their proximal point; all four fractions
@@ -637,6 +786,13 @@ CORPUS = [
                               [2, None, hx([4, 4, 0, 1.0]), [5, (0.5).hex()]],
                               [7, None, hx([4, 4, 8, 0.5]), [2, (0.25).hex()]],
                               [1, None, hx([0, 3, 4, 0.5]), [7, (0.0).hex()]]], "q": q} for q in (2, 7, 1)
+] + [
+    # tapered parent (diameters 4 -> 1), oblique, child attached at 0.1 / 0.8 / 1.5 / -0.5, parent itself inheriting or not
+] + [
+    {"kind": "cell", "segs": ([[0, hx([-4, 2, -3, 4.0]), hx([1, 2, -3, 4.0]), None], [1, None, hx([11, 7, -1, 1.0]), [0, H1]]] if chain
+                              else [[1, hx([1, 2, -3, 4.0]), hx([11, 7, -1, 1.0]), None]]) +
+                             [[2, None, hx([6, 20, 4, 0.8]), [1, float(f).hex()]]], "q": 2}
+    for chain in (False, True) for f in (0.1, 0.8, 1.5, -0.5)
 ] + [
     # KNOWN FINDING at cell level: zero-length child at the parent's distal point with another diameter
     {"kind": "cell", "segs": [[0, hx([0, 0, 0, 2.0]), hx([10, 0, 0, 2.0]), None],
@@ -665,13 +821,56 @@ def nontrivial_seg(p, d):
     return ndiff != 1 or p[3] != d[3]
 
 
-def run_cases(ctx, cases, stream, use_driver=True):
+def gen_vs_hand(ctx, c, gen, hand):
+    """generated definitions vs hand-written model, both evaluated at Float by the driver, on one case.
+    Bit-equal or within 1e-14 (a rewrite that only reorders roundings) is agreement; anything else makes the case a
+    candidate failing input (it is then confirmed or not on the real code by the oracle)."""
+    bad = []
+    for k in gen:
+        g, h = gen[k], hand.get(k, {"err": ["missing", ""]})
+        if "err" in g and g["err"][0] == "Untranslated":
+            ctx.count("gen-vs-hand:untranslated-skipped")
+            continue
+        ctx.count("gen-vs-hand:compared")
+        if "err" in g or "err" in h:
+            if not ("err" in g and "err" in h and g["err"][0] == h["err"][0] and
+                    (g["err"][1] == h["err"][1] or g["err"][0] == "RecursionError")):
+                bad.append(k)
+            continue
+        gv, hv = g["ok"], h["ok"]
+        gl, hl = (gv, hv) if isinstance(gv, list) else ([gv], [hv])
+        for x, y in zip(gl, hl):
+            if x == y:
+                continue
+            fx, fy = b2f(x), b2f(y)
+            if fx == fy:
+                continue
+            if math.isfinite(fx) and math.isfinite(fy) and abs(fx - fy) <= 1e-14 * max(abs(fx), abs(fy)):
+                ctx.count("gen-vs-hand:ulp-difference")
+                continue
+            bad.append(k)
+            break
+    for k in bad:
+        # a CANDIDATE of the directed search, not by itself a broken obligation (the obligation is the Lean theorem
+        # gen_eq_hand_* over the reals, which tolerates a rewrite that only reorders roundings): the oracle on the real
+        # code confirms it or not. The first three per quantity are kept in the evidence.
+        ctx.count("gen-vs-hand:differ:" + k)
+        if ctx.dist["gen-vs-hand:differ:" + k] <= 3:
+            ctx.extra.setdefault("_gvh_examples", []).append(
+                {"quantity": k, "case": c, "generated": canon_model(gen[k]),
+                 "hand": canon_model(hand.get(k, {"err": ["missing", ""]}))})
+    return bad
+
+
+def run_cases(ctx, cases, stream, use_driver=True, hand=False):
     lines = []
     for c in cases:
         a, b = decode(c)
         lines.append(seg_line(a, b) if c["kind"] == "seg" else cell_line(a, b))
-    rc, out = fw.run_driver("C12", ['{"op":"pi"}'] + lines) if use_driver else (0, [])
-    ok_driver = use_driver and rc == 0 and len(out) == len(lines) + 1
+    hlines = [l.replace('{"op": "seg"', '{"op": "segh"', 1).replace('{"op": "cell"', '{"op": "cellh"', 1)
+              for l in lines] if hand else []
+    rc, out = fw.run_driver("C12", ['{"op":"pi"}'] + lines + hlines) if use_driver else (0, [])
+    ok_driver = use_driver and rc == 0 and len(out) == len(lines) + len(hlines) + 1
     if not use_driver:
         pass
     elif not ok_driver:
@@ -684,6 +883,9 @@ def run_cases(ctx, cases, stream, use_driver=True):
         model = json.loads(out[i + 1]) if ok_driver else None
         a, b = decode(c)
         canon = {k: c[k] for k in c if k in ("kind", "p", "d", "segs", "q")}
+        if hand and ok_driver:
+            if gen_vs_hand(ctx, c, model, json.loads(out[len(lines) + i + 1])):
+                ctx.extra.setdefault("_gvh_cases", []).append(canon)
         if c["kind"] == "seg":
             p, d = a, b
             real = real_seg(p, d)
@@ -715,7 +917,7 @@ def run_cases(ctx, cases, stream, use_driver=True):
             ctx.count("cell:" + ("inherited" if inherited else ("own" if seg is not None and seg[1] is not None else "undefined")))
             if inherited and seg[3] is not None:
                 f = seg[3][1]
-                ctx.count("fraction:" + (repr(f) if f in FRACTS else "other"))
+                ctx.count("fraction:" + (repr(f) if f in GRID_FRACTS else ("other-in-0-1" if 0 < f < 1 else "outside-0-1")))
             if model is not None:
                 ex = False
                 if "ok" in real["prox"] and seg is not None:
@@ -729,16 +931,110 @@ def run_cases(ctx, cases, stream, use_driver=True):
             oracle_cell(ctx, segs, q, real, c)
 
 
+def new_failures(ctx, known):
+    """failures found so far whose key is not a listed (open) known finding"""
+    return [f for f in ctx.failures if f["key"] not in known]
+
+
+def sweep(ctx, rng, known, stop_early):
+    """one round of the random streams at the tier's budget; with `stop_early` returns as soon as a stream has
+    produced a failing input that is not a known finding"""
+    streams = [
+        ("exact", lambda: gen_exact(rng), ctx.n(2000, 36000)),
+        ("cell-exact", lambda: gen_cell(rng, True), ctx.n(1000, 15000)),
+        ("general", lambda: gen_general(rng), ctx.n(4000, 60000)),
+        ("cell-general", lambda: gen_cell(rng, False), ctx.n(1000, 15000)),
+        ("grid", lambda: gen_grid(rng), ctx.n(1500, 24000)),
+        ("chain", lambda: gen_chain(rng), ctx.n(150, 2000)),
+        ("signed", lambda: gen_signed(rng), ctx.n(400, 6000)),
+    ]
+    for name, g, n in streams:
+        run_cases(ctx, [g() for _ in range(n)], name)
+        if stop_early and new_failures(ctx, known):
+            return True
+    return False
+
+
 def run(ctx):
-    m = ctx.search_mult
-    run_cases(ctx, [json.loads(json.dumps(c)) for c in CORPUS], "corpus")
+    import time
+    known = set(fw.known_findings("C12"))
+    broken = list(getattr(ctx, "broken", None) or [])
     rng = ctx.rng
-    run_cases(ctx, [gen_exact(rng) for _ in range(ctx.n(2000, 36000) * m)], "exact")
-    run_cases(ctx, [gen_general(rng) for _ in range(ctx.n(4000, 60000) * m)], "general")
-    run_cases(ctx, [gen_grid(rng) for _ in range(ctx.n(1500, 24000) * m)], "grid")
-    run_cases(ctx, [gen_extreme(rng) for _ in range(ctx.n(200, 3000))], "extreme")
-    run_cases(ctx, [gen_cell(rng, True) for _ in range(ctx.n(1000, 15000) * m)], "cell-exact")
-    run_cases(ctx, [gen_cell(rng, False) for _ in range(ctx.n(1000, 15000) * m)], "cell-general")
+    # 1. corpus (known findings, past disagreements) and the DIRECTED systematic grid: generated definitions vs
+    #    hand-written model at Float (driver) and real code vs closed forms / metamorphic relations (oracle)
+    run_cases(ctx, [json.loads(json.dumps(c)) for c in CORPUS], "corpus", hand=True)
+    grid = grid_cases()
+    run_cases(ctx, grid, "directed-grid", hand=True)
+    cast_checks(ctx)
+    found = new_failures(ctx, known)
+    gvh = ctx.extra.pop("_gvh_cases", [])
+    gvh_keys = {json.dumps(x, sort_keys=True, default=str) for x in gvh}
+    found_keys = {json.dumps({k: f["case"][k] for k in f["case"] if k in ("kind", "p", "d", "segs", "q")}, sort_keys=True, default=str)
+                  for f in found if isinstance(f.get("case"), dict)}
+    ds = {"grid_cases": len(grid), "generated_vs_hand_disagreeing_cases": len(gvh),
+          "of_which_confirmed_on_real_code": len(gvh_keys & found_keys),
+          "generated_vs_hand_examples": ctx.extra.pop("_gvh_examples", []),
+          "failing_inputs_confirmed_on_real_code": len({json.dumps(f["case"], sort_keys=True, default=str) for f in found}),
+          "obligations_broken_before_search": len(broken), "rounds_of_random_search": 0, "stopped_early": False}
+    ctx.extra["directed_search"] = ds
+    if not broken:
+        # unchanged obligations: one round of every stream, fixed counts
+        sweep(ctx, rng, known, False)
+        run_cases(ctx, [gen_extreme(rng) for _ in range(ctx.n(200, 3000))], "extreme")
+        ds["rounds_of_random_search"] = 1
+        return
+    # 2. an obligation is broken (translator output changed / proof or correspondence fails): the job is to produce a
+    #    concrete failing input on the real code, quickly, and stop
+    if found:
+        ds["stopped_early"] = True
+        return
+    budget = ctx.n(70, 600)                      # seconds of wall clock for the search, measured from the start of the check
+    for r in range(max(1, ctx.search_mult)):
+        ds["rounds_of_random_search"] = r + 1
+        if sweep(ctx, rng, known, True):
+            ds["stopped_early"] = True
+            break
+        if time.time() - ctx.t0 > budget:
+            break
+    if not new_failures(ctx, known):
+        run_cases(ctx, [gen_extreme(rng) for _ in range(ctx.n(200, 3000))], "extreme")
+    ds["failing_inputs_confirmed_on_real_code"] = len({json.dumps(f["case"], sort_keys=True, default=str)
+                                                       for f in new_failures(ctx, known)})
+
+
+def cast_checks(ctx):
+    """value shapes the model relies on: the constructors cast coordinates/diameters/fraction_along given as ints or
+    numeric strings to float (`_cast(float, ...)`), so the helpers only ever see floats unless a member is assigned
+    afterwards; and results for int / str arguments equal those for the float arguments"""
+    import neuroml
+    for (p, d) in (([0, 0, 0, 2], [3, 4, 12, 4]), ([1, 2, 3, 2], [1, 2, 3, 2]), ([1, -2, 3, 1], [1, -2, 10, 1])):
+        ref = real_seg([float(x) for x in p], [float(x) for x in d])
+        for conv, nm in ((int, "int"), (str, "str"), (lambda x: str(float(x)), "str-float")):
+            case = {"kind": "seg", "p": hx(p), "d": hx(d), "members_given_as": nm}
+            try:
+                pp = neuroml.Point3DWithDiam(x=conv(p[0]), y=conv(p[1]), z=conv(p[2]), diameter=conv(p[3]))
+                dd = neuroml.Point3DWithDiam(x=conv(d[0]), y=conv(d[1]), z=conv(d[2]), diameter=conv(d[3]))
+                shapes = all(type(v) is float for q in (pp, dd) for v in (q.x, q.y, q.z, q.diameter))
+                sg = neuroml.Segment(id=0, proximal=pp, distal=dd)
+                got = {k: attempt(lambda a=a: getattr(sg, a)) for k, a in QS}
+            except Exception as e:  # noqa
+                ctx.fail("C12:members-cast:raises", "constructing points from %s members raises %s" % (nm, type(e).__name__), case)
+                continue
+            ctx.count("cast-check")
+            if not shapes:
+                ctx.fail("C12:members-cast:not-float", "members given as %s are not stored as floats" % nm, case)
+            for k, _ in QS:
+                if canon_res(got[k]) != canon_res(ref[k]):
+                    ctx.fail("C12:members-cast:" + k, "%s differs when members are given as %s" % (k, nm), case)
+    try:
+        sp = neuroml.SegmentParent(segments="3", fraction_along="0.25")
+        sp1 = neuroml.SegmentParent(segments=3)
+        if not (type(sp.fraction_along) is float and sp.fraction_along == 0.25 and sp.segments == 3
+                and type(sp1.fraction_along) is float and sp1.fraction_along == 1.0):
+            ctx.fail("C12:members-cast:not-float", "SegmentParent members are not cast / default fraction_along is not 1.0",
+                     {"kind": "parent"})
+    except Exception as e:  # noqa
+        ctx.fail("C12:members-cast:raises", "SegmentParent construction raises %s" % type(e).__name__, {"kind": "parent"})
 
 
 def regenerate(ctx):
@@ -755,6 +1051,6 @@ def replay(ctx, payload):
     # self-contained: retranslate the current tree and rebuild the Float model; without a model only the oracle runs
     gaps = regenerate(ctx)
     ok, _ = fw.lake_build(["NmlVerif.Model.Geom"])
-    run_cases(ctx, [case], "replay", use_driver=ok and not gaps)
+    run_cases(ctx, [case], "replay", use_driver=ok, hand=ok)
     return {"fails": bool(ctx.failures or ctx.corr_disagreements or gaps), "translator_gaps": gaps,
             "model_built": ok, "failures": ctx.failures, "disagreements": ctx.corr_disagreements}
